@@ -21,7 +21,7 @@ RULE = ("Configurations: explainer in {IncrementalPFI, IncrementalSage, BatchSag
         "(mixed categorical/numerical for trees; tree seed explicit or left at its default). Differential replay: run A (seed both global "
         "generators, build fresh, stream) vs run B in the same process after INTERFERENCE (other storages/explainers/imputers/trackers/"
         "river metrics created and used - consuming global draws and allocating -, gc.collect(), time.time/time_ns/perf_counter/monotonic "
-        "(and the process-time clocks) replaced by clocks the check owns: another origin, advancing by 0 s / 1 us / 2 s / one day per reading), then reseed and replay; quick: 2 cases, thorough: every 8th case additionally run C in a FRESH "
+        "(and the process-time clocks) replaced by clocks the check owns: another origin, advancing by 0 s / 1 us / 2 s / one day per reading), then reseed and replay - this time the caller keeps every observation dict alive, whereas in run A they die with their eviction from the storage (with sliding-window storages the caller even recycles the dict OBJECTS from a pool of window + 1 objects); quick: 2 cases, thorough: every 8th case additionally run C in a FRESH "
         "interpreter (same PYTHONHASHSEED, different object addresses). Digest = float.hex of every importance value after every call + "
         "final storage contents (TreeStorage: reservoir contents per leaf key); must be bit-identical. Non-trivial: the digest CHANGES "
         "when the seeds change (third run) - otherwise the comparison is vacuous; distinct by case digest.")
@@ -164,18 +164,38 @@ def storage_digest(storage):
     return repr((list(xs), list(ys)))
 
 
-def execute(case, seeds=None):
+def execute(case, seeds=None, keep_alive=False):
+    """keep_alive: the caller holds on to every observation dict it passed in (no address is ever reused); otherwise the dicts live
+    only as long as the storage keeps them and CPython recycles their addresses - the results must not notice the difference."""
     a, b = seeds or case['seeds']
     random.seed(a)
     np.random.seed(b)
     ex, storage, names = build(case)
     h = hashlib.sha256()
     n_diff = 0
-    for x, y in stream_of(case, names):
+    held = []
+    # a sliding-window storage forgets an observation after `window` further updates: a caller may then RECYCLE the dict object
+    # for a new observation (an object pool) - the same addresses come back with other contents
+    window = None
+    if case['cls'] == 'interval' or (case['cls'] in ('pfi', 'sage') and case['storage'] == 'interval'):
+        window = case['k']
+    elif case['cls'] in ('pfi', 'sage') and case['storage'] == 'sequence':
+        window = 1
+    pool = [dict() for _ in range(window + 1)] if (window and not keep_alive) else None      # the smallest legal pool
+    for t, (x, y) in enumerate(stream_of(case, names)):
         kw = {'verbose': False} if case['cls'] in ('batch', 'interval') else {}
         if case['cls'] == 'batch' and case.get('original'):
             kw['original_sage'] = True          # the "original SAGE" entry point has random draws of its own
-        out = ex.explain_one(dict(x), y, **kw)
+        if pool is not None:
+            obs = pool[t % len(pool)]
+            obs.clear()
+            obs.update(x)
+        else:
+            obs = dict(x)
+        if keep_alive:
+            held.append(obs)
+        out = ex.explain_one(obs, y, **kw)
+        del obs
         h.update(repr(sorted((repr(k), float(v).hex()) for k, v in out.items())).encode())
     h.update(storage_digest(storage).encode())
     return h.hexdigest()
@@ -250,7 +270,7 @@ def run_case(case, fresh_interpreter=False):
     keep = interfere(case.get('interference', 1))
     try:
         with PatchedClocks(case.get('clock_offset', 1000.0), case.get('clock_step', 0.0)):
-            db = execute(case)
+            db = execute(case, keep_alive=True)
     except Exception as e:
         return Result(False, key=f'C18:replay-raises:{type(e).__name__}',
                       detail=f'the first run succeeded, the replay after interference raised {e!r} for {case}')
